@@ -24,6 +24,7 @@ import math
 
 import numpy as np
 
+from . import argforms_a as af
 from . import qc
 from .common import bits, unbits
 from .qc import torch
@@ -64,18 +65,36 @@ RULE = ("model case = (state kind pos/cplx/dens, n<=4, h<=4, a<=3, scale in {0.1
         "parts (a),(b) before and after every write on the same state object with the same argument tensors; every `overwrite` argument "
         "(first call, continuation call) is handed over as one of {bool singleton, int 1/0, numpy.bool_, result of a numpy comparison, "
         "0-dim numpy bool array, 0-dim torch.bool tensor}, by keyword or positionally (sample(k, num_samples, initial_state, overwrite) / "
-        "gibbs_steps(k, initial_state, overwrite)); the states are constructed with gpu=<falsy object of one of these forms>")
+        "gibbs_steps(k, initial_state, overwrite)); the states are constructed with gpu=<falsy object of one of these forms>; argument-form "
+        "sweep (round 5): every INTEGER option - the constructor sizes num_visible / num_hidden / num_aux (state and RBM constructors), `k` and "
+        "`num_samples` of sample, `k` of gibbs_steps, first and continuation call - is handed over as one of {Python int, np.int64, np.int32, "
+        "np.intp, np.uint8, 0-d integer numpy array, 0-d integer torch tensor} drawn from the case's own stream (`aseed`), keyword or positional")
 
 
 # ------------------------------------------------------------------ helpers
-def build(kind, n, h, a, am, ph, gpuf=None):
-    """`gpuf`: flag form of the (falsy) object handed as `gpu=` to the constructors (None: the singleton False)"""
+def build(kind, n, h, a, am, ph, gpuf=None, A=None):
+    """`gpuf`: flag form of the (falsy) object handed as `gpu=` to the constructors (None: the singleton False).
+    `A`: the case's argument-form stream (argforms.Args): the sizes n, h, a are handed to the state / RBM constructors as the objects it
+    draws (None: plain Python ints by keyword, as before round 5)"""
     gpu = qc.flag_value(qc.flag_desc(gpuf, False))
+    A = A if A is not None else af.Args(None)
     if kind == "pos":
-        return qc.make_positive(n, h, am, gpu=gpu)
+        return af.make_positive(A, n, h, am, gpu=gpu)
     if kind == "cplx":
-        return qc.make_complex(n, h, am, ph, gpu=gpu)
-    return qc.make_density(n, h, a, am, ph, gpu=gpu)
+        return af.make_complex(A, n, h, am, ph, gpu=gpu)
+    return af.make_density(A, n, h, a, am, ph, gpu=gpu)
+
+
+def build_checked(ctx, case, tag=""):
+    """construct the case's state with the sizes in the forms of the case's stream (`aseed`) and check that it has the requested
+    architecture; returns (state or None, stream)"""
+    kind, n, h, a, am, ph = (case[k] for k in ("kind", "n", "h", "a", "am", "ph"))
+    A = af.Args(case.get("aseed"))
+    st = build(kind, n, h, a, am, ph, case.get("gpuf"), A)
+    ok = af.check_sizes(ctx, st, (n, h, a) if kind == "dens" else (n, h), case, A, f"{kind}/ctor-sizes",
+                        "C05_kernel(_purif) / C05_invariant(_purif) (stated for the architecture the caller asked for)")
+    A.count_into(ctx)
+    return (st if ok else None), A
 
 
 def mkind(kind):
@@ -306,7 +325,9 @@ def reported_pi(st, n, inp=None):
 # ------------------------------------------------------------------ part (a)
 def cond_case(ctx, case):
     kind, n, h, a, scale, am, ph = (case[k] for k in ("kind", "n", "h", "a", "scale", "am", "ph"))
-    st = build(kind, n, h, a, am, ph, case.get("gpuf"))
+    st, _ = build_checked(ctx, case)
+    if st is None:
+        return
     dens = kind == "dens"
     nontriv = any(x != 0 for x in am["c"]) and any(x != 0 for x in am["b"])
     ctx.case({k: case[k] for k in ("part", "kind", "n", "h", "a", "am")}, nontrivial=nontriv,
@@ -596,11 +617,13 @@ def consistency_oracle(ctx, st, kind, n, h, a, start_rows, calls, vector, case, 
     return v
 
 
-def run_call(ctx, st, kind, n, h, a, am, k, start_rows, vector, overwrite, dtype, mode, dseed, case, tag, api, init=None, owf=None):
+def run_call(ctx, st, kind, n, h, a, am, k, start_rows, vector, overwrite, dtype, mode, dseed, case, tag, api, init=None, owf=None, A=None):
     """one recorded call of sample/gibbs_steps + its replay on the model. returns (result tensor, calls, final rows).
     `init`: a start tensor built earlier (holding `start_rows`) that is handed to the implementation AGAIN.
     `owf`: flag form {"form", "pos"} of the `overwrite` argument: the truth value `overwrite` is handed over as that kind of object
-    (bool singleton / int / numpy bool / result of a numpy comparison / 0-dim bool array / 0-dim bool tensor), by keyword or positionally"""
+    (bool singleton / int / numpy bool / result of a numpy comparison / 0-dim bool array / 0-dim bool tensor), by keyword or positionally.
+    `A`: the case's argument-form stream: `k` and `num_samples` are handed over as the integer objects it draws (None: Python ints)"""
+    A = A if A is not None else af.Args(None)
     ow_desc = qc.flag_desc(owf, overwrite)
     ow_obj = qc.flag_value(ow_desc)
     ctx.count(f"overwrite given as {ow_desc['form']}:{'positional' if qc.flag_pos(owf) else 'keyword'}")
@@ -613,19 +636,28 @@ def run_call(ctx, st, kind, n, h, a, am, k, start_rows, vector, overwrite, dtype
                 init = init.reshape(B, n)
         before = init.clone()
         ptr = init.data_ptr()
+    ko = A.i(k)
     with Recorder(dseed, mode) as rec:
         if init is None:
-            res = st.sample(k, num_samples=B)
+            res = st.sample(ko, A.i(B)) if A.coin(0.5) else st.sample(ko, num_samples=A.i(B))
         elif api == "sample":
-            res = st.sample(k, B, init, ow_obj) if qc.flag_pos(owf) else st.sample(k, initial_state=init, overwrite=ow_obj)
+            res = st.sample(ko, A.i(B), init, ow_obj) if qc.flag_pos(owf) else st.sample(ko, initial_state=init, overwrite=ow_obj)
         else:
-            res = st.rbm_am.gibbs_steps(k, init, ow_obj) if qc.flag_pos(owf) else st.rbm_am.gibbs_steps(k, init, overwrite=ow_obj)
+            res = st.rbm_am.gibbs_steps(ko, init, ow_obj) if qc.flag_pos(owf) else st.rbm_am.gibbs_steps(ko, init, overwrite=ow_obj)
+    for d_ in A.ints.used:
+        ctx.count(f"k / num_samples given as {d_['form']}")
+    A.ints.used.clear()
     calls = canonical_calls(st, kind, n, h, a, rec.calls, B, start_rows, fresh=init is None)
     calls = decomplement(st, kind, n, h, a, calls, B, start_rows, fresh=init is None)
     sizes = step_sizes(kind, n, h, a)
     exp_shapes = ([[B, n]] if init is None else []) + [([m] if vector else [B, m]) for _ in range(k) for m in sizes]
     got_shapes = [c["shape"] for c in calls]
     res_np = res.detach().to(torch.double).numpy().copy()
+    if res_np.size != B * n:
+        # not the requested number of chains / sites (e.g. `num_samples` or a size not honoured): nothing else can be evaluated on this call
+        ctx.oracle(f"{tag}: result is a 0/1 double array of the requested shape", False, case,
+                   detail={"shape": list(res.shape), "dtype": str(res.dtype), "requested": [n] if vector else [B, n]}, sig=f"{kind}/values-shape", theorem="C05_values_shape")
+        return res, calls, None
     final = res_np.reshape(B, n)
     if not calls and exp_shapes:
         # the implementation made its draws without torch.bernoulli (e.g. thresholded uniforms): the scripted replay cannot be
@@ -702,14 +734,19 @@ def run_call(ctx, st, kind, n, h, a, am, k, start_rows, vector, overwrite, dtype
 
 
 def replay_case(ctx, case):
-    kind, n, h, a, am, ph = (case[k] for k in ("kind", "n", "h", "a", "am", "ph"))
-    st = build(kind, n, h, a, am, ph, case.get("gpuf"))
-    replay_body(ctx, st, case, am)
+    am = case["am"]
+    st, A = build_checked(ctx, case)
+    if st is None:
+        return
+    replay_body(ctx, st, case, am, A=A)
 
 
-def replay_body(ctx, st, case, am, inp=None, ikey=None):
+def replay_body(ctx, st, case, am, inp=None, ikey=None, A=None):
     """part (b) on the state object `st` whose amplitude network is supposed to carry `am`; `case` holds the call description.
-    With `inp`/`ikey` the start tensor of a non-overwriting native-dtype call is taken from / kept in `inp` (same object next time)."""
+    With `inp`/`ikey` the start tensor of a non-overwriting native-dtype call is taken from / kept in `inp` (same object next time).
+    `A`: argument-form stream for the integer options of the calls (default: a stream seeded by the call description's own `aseed`;
+    descriptions stored before round 5 have none: Python ints)."""
+    A = A if A is not None else af.Args(case.get("aseed"))
     kind, n, h, a = (case[k] for k in ("kind", "n", "h", "a"))
     k, vector, ow, dtype, mode, dseed = (case[x] for x in ("k", "vector", "overwrite", "dtype", "mode", "dseed"))
     start = case["start"]
@@ -724,8 +761,10 @@ def replay_body(ctx, st, case, am, inp=None, ikey=None):
     if inp is not None and start is not None and not ow and dtype == "double":
         init = inp.get(ikey, start[0] if vector else start, n, vector=vector)
     res, calls, final = run_call(ctx, st, kind, n, h, a, am, k, start, vector, ow, dtype, mode, dseed, case, "call1", case["api"], init=init,
-                                 owf=case.get("owf"))
+                                 owf=case.get("owf"), A=A)
     k2 = case.get("k2")
+    if final is None:
+        return
     if k2 is not None:
         # chain continued across calls: start the second call from the tensor the first one returned
         ctx.count("continued")
@@ -734,7 +773,11 @@ def replay_body(ctx, st, case, am, inp=None, ikey=None):
         ow2 = qc.flag_value(qc.flag_desc(case.get("owf2"), case["overwrite2"]))
         ctx.count(f"overwrite given as {qc.flag_desc(case.get('owf2'), False)['form']}:{'positional' if qc.flag_pos(case.get('owf2')) else 'keyword'}")
         with Recorder(dseed + 1, mode) as rec2:
-            res2 = st.sample(k2, case["B"], res, ow2) if qc.flag_pos(case.get("owf2")) else st.sample(k2, initial_state=res, overwrite=ow2)
+            res2 = st.sample(A.i(k2), A.i(case["B"]), res, ow2) if qc.flag_pos(case.get("owf2")) else st.sample(A.i(k2), initial_state=res, overwrite=ow2)
+        if res2.numel() != case["B"] * n:
+            ctx.oracle("call2: result is a 0/1 double array of the requested shape", False, case, detail={"shape": list(res2.shape)},
+                       sig=f"{kind}/values-shape", theorem="C05_values_shape")
+            return
         fin2 = res2.detach().numpy().reshape(case["B"], n).copy()
         same2 = res2.data_ptr() == ptr2
         b2rows = before2.detach().to(torch.double).numpy().reshape(case["B"], n).tolist()
@@ -772,7 +815,9 @@ def history_case(ctx, case):
     """phase 0: parts (a),(b) on a state built with (am, ph); then for every write: overwrite ALL parameters of the same object and
     evaluate parts (a),(b) again with the SAME argument tensors against the model at the parameters just written"""
     kind, n, h, a, am, ph = (case[k] for k in ("kind", "n", "h", "a", "am", "ph"))
-    st = build(kind, n, h, a, am, ph, case.get("gpuf"))
+    st, _ = build_checked(ctx, case)
+    if st is None:
+        return
     writes = case["writes"]
     nontriv = any(x != 0 for x in am["c"]) and all(w["am"]["W"] != am["W"] for w in writes)
     ctx.case({k: case[k] for k in ("part", "kind", "n", "h", "a", "am", "writes", "samples")}, nontrivial=nontriv,
@@ -843,7 +888,7 @@ def c05_thunks(st, case, inp, ams):
     def one_pass():
         with Recorder(case["rseed"] % (2 ** 31), "coin") as rec:
             # overwrite=False in one of the falsy forms (chosen by the case): the shared `space` tensor must stay untouched
-            st.sample(1, initial_state=space, overwrite=qc.flag_value({"form": qc.FLAG_FORMS[case["rseed"] % len(qc.FLAG_FORMS)] if "gpuf" in case else "py",
+            st.sample(qc.int_value(qc.INT_FORMS[case["rseed"] % len(qc.INT_FORMS)] if "aseed" in case else "py", 1), initial_state=space, overwrite=qc.flag_value({"form": qc.FLAG_FORMS[case["rseed"] % len(qc.FLAG_FORMS)] if "gpuf" in case else "py",
                                                                         "value": False}))
         cl = canonical_calls(st, kind, n, h, a, rec.calls, len(V), V, fresh=False)
         cl = decomplement(st, kind, n, h, a, cl, len(V), V, fresh=False)
@@ -873,7 +918,9 @@ def c05_thunks(st, case, inp, ams):
 # ------------------------------------------------------------------ part (c): statistical support (thorough)
 def stat_case(ctx, case):
     kind, n, h, a, am, ph = (case[k] for k in ("kind", "n", "h", "a", "am", "ph"))
-    st = build(kind, n, h, a, am, ph)
+    st, A = build_checked(ctx, case)
+    if st is None:
+        return 0.0, 1.0
     N, k, start = case["N"], case["k"], case["start"]
     ctx.case({x: case[x] for x in case if x != "ph"}, nontrivial=True)
     ctx.count("part=stat"); ctx.count(f"stat k={k}")
@@ -882,7 +929,7 @@ def stat_case(ctx, case):
     idx0 = int("".join(map(str, start)), 2)
     torch.manual_seed(case["tseed"])
     init = torch.tensor(start, dtype=torch.double).repeat(N, 1)
-    out = st.sample(k, initial_state=init, overwrite=False).numpy()
+    out = st.sample(A.i(k), initial_state=init, overwrite=False).numpy()
     w = (out @ (2 ** np.arange(n - 1, -1, -1))).astype(int)
     emp = np.bincount(w, minlength=2 ** n) / N
     eps = math.sqrt(math.log(2 * (2 ** n) / 1e-12) / (2 * N))
@@ -919,7 +966,8 @@ def gen_models(ctx, thorough):
             sc = scales if thorough else [ctx.rng.choice(scales[:3]), ctx.rng.choice(scales)]
             for scale in sc:
                 am, ph = rand_model(ctx.rng, kind, n, h, a, scale)
-                yield {"kind": kind, "n": n, "h": h, "a": a, "scale": scale, "am": am, "ph": ph, "gpuf": qc.flag_form(ctx.rng, plain=0.4)}
+                yield {"kind": kind, "n": n, "h": h, "a": a, "scale": scale, "am": am, "ph": ph, "gpuf": qc.flag_form(ctx.rng, plain=0.4),
+                       "aseed": af.draw_aseed(ctx.rng)}
 
 
 def gen_replays(ctx, model, thorough):
@@ -934,6 +982,7 @@ def gen_replays(ctx, model, thorough):
         c.update(kw)
         c["B"] = kw.get("B", len(c["start"]) if c["start"] is not None else 1)
         c["owf"], c["owf2"] = qc.flag_form(rng), qc.flag_form(rng)   # the objects handed as `overwrite` (first call / continuation call)
+        c["aseed"] = af.draw_aseed(rng)                               # the objects handed as sizes / `k` / `num_samples`
         return c
 
     # every start state as one batch (n <= 3), else a random batch with repeats
@@ -982,6 +1031,7 @@ def gen_history(ctx, model, thorough, idx=0):
         c.update(kw)
         c["B"] = kw.get("B", len(c["start"]) if c["start"] is not None else 1)
         c["owf"], c["owf2"] = qc.flag_form(rng), qc.flag_form(rng)
+        c["aseed"] = af.draw_aseed(rng)
         return c
 
     samples = [spec(k=rng.randrange(1, 4), start=batch, mode=rng.choice(["faithful", "coin"])),
@@ -1002,7 +1052,7 @@ def gen_stats(ctx):
             for start in ([0] * n, [1] + [0] * (n - 1)):
                 for k in (1, 2, 3):
                     yield {"part": "stat", "kind": kind, "n": n, "h": h, "a": a if kind == "dens" else 0, "scale": scale, "am": am, "ph": ph,
-                           "N": 200000, "k": k, "start": start, "tseed": ctx.rng.randrange(2 ** 31)}
+                           "N": 200000, "k": k, "start": start, "tseed": ctx.rng.randrange(2 ** 31), "aseed": af.draw_aseed(ctx.rng)}
 
 
 def dispatch(ctx, case):
